@@ -590,7 +590,7 @@ def fmt_f(f):
     return '%gMHz' % (f / 1e6)
 
 
-def check_timers(ctx, f):
+def check_timers(ctx, f, skipped):
     tag = 'f=' + fmt_f(f)
     ir = ctx.ir(CLS_T, MOD_T, ss_clock_frequency=f)
     EN, TX, LCR, PKT = 'self.enable', 'self.link_command_transmitted', 'self.link_command_received', 'self.packet_received'
@@ -614,39 +614,52 @@ def check_timers(ctx, f):
         def vname(i):
             on = [k.split('.')[-1] for k, x in sorted(vs[i].items()) if x]
             return '+'.join(on) if on else 'nothing'
-        ctx.need(net.state_bits <= MAX_EXHAUSTIVE_BITS, 'timer cone of %s small enough to analyse every register state '
-                 '(%d register bits in %s, limit %d)' % (out, net.state_bits, [q.base(r) for r in net.regs], MAX_EXHAUSTIVE_BITS))
+        if net.state_bits > MAX_EXHAUSTIVE_BITS:
+            # fail closed: never a pass.  Reported as ANALYSIS-ERROR at the end of run() unless another configuration
+            # already shows a violation (then that verdict stands).
+            skipped.append('timer cone of %s at %s too large to analyse every register state (%d register bits in %s, limit %d)' % (
+                out, fmt_f(f), net.state_bits, [q.base(r) for r in net.regs], MAX_EXHAUSTIVE_BITS))
+            return net, None, None, None
         bad, n, wait = analyse_timer(ctx, net, tuples, quiet, n_lo, n_hi, once, vname, '%s %s' % (tag, out))
         how = 'all %d reachable states of %s x %d input vectors' % (n, [q.base(r) for r in net.regs], len(vs))
         return net, bad, how, wait
 
     # ---- keepalive: upper bound only
-    net, bad, how, first = decide(KEEP, (EN, TX), lambda v: v[EN] and not v[TX], 0, n_keep, False)
-    ctx.ob('C44.keepalive-deadline', '%s.schedule_keepalive.deadline[%s]' % (CLS_T, tag), 'late' not in bad, net.loc(KEEP),
-           'while enabled, schedule_keepalive must be raised at most 10 ms (%d cycles at %s) after the last transmitted link '
-           'command / U0 entry / previous request (%s)%s' % (n_keep, fmt_f(f), how, ' -- violated: ' + bad['late'] if 'late' in bad else ''))
-    if first is not None:
-        ctx.note('%s: schedule_keepalive is raised %d cycles (%.3f us) after reset / the last transmitted link command' % (tag, first, first / f * 1e6))
+    net, bad, how, wait = decide(KEEP, (EN, TX), lambda v: v[EN] and not v[TX], 0, n_keep, False)
+    if bad is not None:
+        ctx.ob('C44.keepalive-deadline', '%s.schedule_keepalive.deadline[%s]' % (CLS_T, tag), 'late' not in bad, net.loc(KEEP),
+               'while enabled, schedule_keepalive must be raised at most 10 ms (%d cycles at %s) after the last transmitted '
+               'link command / U0 entry / previous request (%s)%s' % (
+                   n_keep, fmt_f(f), how, ' -- violated: ' + bad['late'] if 'late' in bad else ''))
+        if wait is not None:
+            ctx.note('%s: schedule_keepalive is raised %d cycles (%.3f us) after reset / the last transmitted link command' % (
+                tag, wait, wait / f * 1e6))
 
     # ---- recovery: exact
-    net, bad, how, first = decide(REC, (EN, LCR, PKT), lambda v: v[EN] and not v[LCR] and not v[PKT], n_rec, n_rec, True)
-    ctx.ob('C44.recovery-not-early', '%s.transition_to_recovery.not-before-1ms[%s]' % (CLS_T, tag), 'early' not in bad, net.loc(REC),
-           'transition_to_recovery may only be raised when the %d preceding cycles (1 ms at %s, less the current cycle) were all '
-           'enabled without link_command_received / packet_received (%s)%s' % (
-               n_rec - 1, fmt_f(f), how, ' -- violated: ' + bad['early'] if 'early' in bad else ''))
-    ctx.ob('C44.recovery-deadline', '%s.transition_to_recovery.within-one-cycle[%s]' % (CLS_T, tag), 'late' not in bad, net.loc(REC),
-           'transition_to_recovery must be raised %d or %d cycles after the last received link command / header packet / U0 '
-           'entry / reset when nothing is received (%s)%s' % (n_rec, n_rec + 1, how, ' -- violated: ' + bad['late'] if 'late' in bad else ''))
-    if first is not None:
-        ctx.note('%s: transition_to_recovery is raised %d cycles (%.6f ms) after reset / the last received command or packet' % (tag, first, first / f * 1e3))
+    net, bad, how, wait = decide(REC, (EN, LCR, PKT), lambda v: v[EN] and not v[LCR] and not v[PKT], n_rec, n_rec, True)
+    if bad is not None:
+        ctx.ob('C44.recovery-not-early', '%s.transition_to_recovery.not-before-1ms[%s]' % (CLS_T, tag), 'early' not in bad, net.loc(REC),
+               'transition_to_recovery may only be raised when the %d preceding cycles (1 ms at %s, less the current cycle) '
+               'were all enabled without link_command_received / packet_received (%s)%s' % (
+                   n_rec - 1, fmt_f(f), how, ' -- violated: ' + bad['early'] if 'early' in bad else ''))
+        ctx.ob('C44.recovery-deadline', '%s.transition_to_recovery.within-one-cycle[%s]' % (CLS_T, tag), 'late' not in bad, net.loc(REC),
+               'transition_to_recovery must be raised %d or %d cycles after the last received link command / header packet / '
+               'U0 entry / reset when nothing is received (%s)%s' % (
+                   n_rec, n_rec + 1, how, ' -- violated: ' + bad['late'] if 'late' in bad else ''))
+        if wait is not None:
+            ctx.note('%s: transition_to_recovery is raised %d cycles (%.6f ms) after reset / the last received command or packet' % (
+                tag, wait, wait / f * 1e3))
 
 
 def run(ctx):
     check_idle(ctx)
+    skipped = []
     # 1 MHz: small counters; 1.6 MHz / 1.024 MHz: the keepalive (16) / recovery (1024) counter overflows exactly at its
     # timeout; 125 MHz: the link layer default
-    for f in (1e6, 1.6e6, 1.024e6, 125e6):
-        check_timers(ctx, f)
+    freqs = (1e6, 1.6e6, 1.024e6, 125e6)
     if ctx.tier == 'thorough':
-        for f in (2e6, 3e6, 12.8e6, 62.5e6, 250e6):
-            check_timers(ctx, f)
+        freqs += (2e6, 3e6, 12.8e6, 62.5e6, 250e6)
+    for f in freqs:
+        check_timers(ctx, f, skipped)
+    # fail closed: a configuration that could not be analysed is never a pass; a violation found elsewhere stands
+    ctx.need(not skipped or any(not o.ok for o in ctx.obs), '; '.join(skipped))
